@@ -34,9 +34,9 @@ CHECKS = [
      "design_ref": "6/C07", "technique": "Coq proof by loop invariant over arbitrary segmentations + scripted-connection correspondence",
      "note": COMMON_NOTE + "Assumes the transport delivers bytes in order."},
     {"property_id": "C08",
-     "text": "Theorems call_spec / recovery / exchange on the composed system client || honest reactive peer || fault script (Answer, Silent, CloseBefore, Garbage tail incl. a well-formed stale frame): Sync (in sync or closed) is preserved by every call, the peer's log grows by [] | [auth] | [req] | [auth; req], a successful call returns reply_of its own request, and from a closed state the next call reconnects, re-authenticates and succeeds against a healthy peer - for every codec/cipher satisfying the interface premises (proved separately for the RSCP instance). The concrete client is run over real TCP against a scripted device on histories over {send one, send several, disconnect} x 9 behaviours; frames per connection and results are compared with the model and pairing/order/recovery are evaluated directly from nonces.",
+     "text": "Theorems call_spec / recovery / exchange on the composed system client || honest reactive peer || fault script (Answer, Silent, CloseBefore, Garbage tail incl. a well-formed stale frame): Sync (in sync or closed) is preserved by every call, the peer's log grows by [] | [auth] | [req] | [auth; req], a successful call returns reply_of its own request, and from a closed state the next call reconnects, re-authenticates and succeeds against a healthy peer - proved for every codec/cipher satisfying a small interface (PeerU.v) and, with every interface premise discharged, for the RSCP codec + Rijndael-256/CBC instance that is extracted and run (C08Proofs.v), for any encodable, non-empty, authentication-granting reply function. The concrete client is run over real TCP against a scripted device on histories over {send one, send several, disconnect} x 9 behaviours; frames per connection and results are compared with the model and pairing/order/recovery are evaluated directly from nonces.",
      "design_ref": "6/C08", "technique": "Coq refinement proof (Sync invariant, peer log) + TCP history correspondence with nonces",
-     "note": COMMON_NOTE + "The C08 theorems are parametric in the codec/cipher interface; the behaviours Late, CloseInside, BadCRC, Malformed, RefuseAuth are covered by the correspondence, not by a theorem."},
+     "note": COMMON_NOTE + "C08_call_spec and C08_recovery are premise-free for the RSCP codec and Rijndael/CBC instance (theories/C08Proofs.v) over an honest peer with any encodable reply function and the fault behaviours Answer, Silent, CloseBefore, Garbage; the behaviours Late, CloseInside, BadCRC, Malformed, RefuseAuth are covered by the correspondence, not by a theorem."},
     {"property_id": "C09",
      "text": "Theorem C09_gate (same invariant as C06, all histories/peers): every frame the client writes is the authentication request or is preceded by a grant (non-zero UChar8/Int32 level under RSCP_AUTHENTICATION as first message) on the same connection, and the first frame of every connection is the authentication request with exactly the configured user and password. All ~600 enumerated authentication replies (4 tags x 18 types x values x 1..3 messages) x 3 follow-ups are run on the real client and compared frame by frame; the gate is also evaluated directly on the real client's writes.",
      "design_ref": "6/C09", "technique": "Coq invariant proof over traces + exhaustive enumeration of authentication replies",
@@ -46,7 +46,7 @@ CHECKS = [
      "design_ref": "6/C10", "technique": "Coq proof of a clock bound for all environments + virtual-time trace correspondence",
      "note": COMMON_NOTE + "Wall-clock time, the scheduler and the kernel honouring deadlines are outside the model."},
     {"property_id": "C11",
-     "text": "PARTIAL. Theorem C11_no_secret: for every environment, level < 99 and sequence of innocent calls no emitted record (Text / Tree / Dump) reveals the password and the logger's level is restored - under four premises stated in the theorem (ciphertext hides the password, the authentication request renders masked, the peer does not echo it). The real client's rendered log is scanned at every level 0..98 (literal, hex, base64, byte dumps parsed back; secret-tagged values in rendered trees) over successful/refused/failing sessions with a secret-tagged message nested at depth 0..3, and the Tree/Dump records around each transmission are compared with the model's.",
+     "text": "PARTIAL. Theorem C11_no_secret: for every environment, level < 99 and sequence of innocent calls no emitted record (Text / Tree / Dump) reveals the password and the logger's level is restored - under premises stated in the theorem: the ciphertext hides the password and the peer does not echo it (assumptions), the authentication request renders masked (proved: C11_auth_tree_masked; C11_mask_depth: a value under a secret tag is masked at every nesting depth). The real client's rendered log is scanned at every level 0..98 (literal, hex, base64, byte dumps parsed back; secret-tagged values in rendered trees) over successful/refused/failing sessions with a secret-tagged message nested at depth 0..3, and the Tree/Dump records around each transmission are compared with the model's.",
      "design_ref": "6/C11", "technique": "Coq trace invariant (no revealing record) + scan of the real log at all levels",
      "note": COMMON_NOTE + "fmt/logrus rendering and the cipher-hides premise are assumptions."},
     {"property_id": "C14",
